@@ -18,6 +18,8 @@ import (
 	"encoding/json"
 	"fmt"
 	"os"
+	"runtime"
+	"runtime/debug"
 	"sort"
 	"strings"
 	"sync"
@@ -490,7 +492,11 @@ func TestC10(t *testing.T) {
 		// a single comment in every gap of the plain rendering, each comment kind
 		st := Style{CtxType: true, BoolType: true, TrailComma: true, LambdaParen: true, SSQuote: 0}
 		toks := prog.Tokens(st)
-		comments := []string{" /* c */ ", " /** c\n * d */ ", " // c\n "}
+		// every shape a comment's ends can take: empty, stars and slashes next to the delimiters, a comment opener
+		// inside a comment, a line comment holding block delimiters, a line comment at the end of a line only
+		comments := []string{" /* c */ ", " /** c\n * d */ ", " // c\n ",
+			" /**/ ", " /***/ ", " /****/ ", " /** c **/ ", " /*** c ***/ ", " /* * */ ", " /* / */ ", " /*/ c */ ", " /* c /*/ ", " /* /* c */ ", " /* // */ ",
+			" //\n ", " /// c\n ", " // */ c\n ", " // /* c\n ", " /* c */ /* d */ ", " /* c */ // d\n "}
 		parallel(len(toks)*len(comments), func(i int) {
 			g, c := i/len(comments), comments[i%len(comments)]
 			text, _ := Join(toks, LayoutPretty, g, c)
@@ -524,6 +530,38 @@ func TestC10(t *testing.T) {
 		}
 	}
 
+	// a parse result denotes its source for as long as the caller holds it: the namespaces returned for document a
+	// are compared with their own rendering after document b was parsed (every ordered pair of documents, single
+	// OS thread, no garbage collection in between, so that whatever Parse recycles is what the next Parse gets)
+	lifetimePairs := 0
+	{
+		var docs []string
+		for _, prog := range []*Prog{specExampleProg(), secondProg()} {
+			for _, st := range []Style{{CtxType: true, BoolType: true, LambdaParen: true}, {CtxType: true, BoolType: true, LambdaParen: true, DeclOrder: 1}} {
+				tx, _ := Join(prog.Tokens(st), LayoutPretty, -1, "")
+				docs = append(docs, tx)
+			}
+		}
+		docs = append(docs, "class X implements Namespace {}", "class Y implements Namespace {}\nclass Z implements Namespace { related: { r: Y[] } }", "class {")
+		oldP := runtime.GOMAXPROCS(1)
+		gc := debug.SetGCPercent(-1)
+		reported := false
+		for a := 0; a < len(docs) && !reported; a++ {
+			for b := 0; b < len(docs) && !reported; b++ {
+				nsA, _ := schema.Parse(docs[a])
+				before := normNamespacesUnordered(nsA)
+				_, _ = schema.Parse(docs[b])
+				lifetimePairs++
+				if after := normNamespacesUnordered(nsA); after != before {
+					reported = true
+					run.Violation("result-lifetime:namespaces-of-an-earlier-parse-changed", fmt.Sprintf("the namespaces returned by Parse(document %d) read %s; after Parse(document %d) ran, the SAME returned value reads %s", a, before, b, after), map[string]any{"first": docs[a], "second": docs[b]})
+				}
+			}
+		}
+		debug.SetGCPercent(gc)
+		runtime.GOMAXPROCS(oldP)
+	}
+
 	counts := agg.report(run)
 	run.Assume(
 		"documented grammar = docs/ory_permission_language_spec.md read together with its examples, contrib/rewrites-example and the typings: `related: {` and `traverse` (the EBNF's `related = {` / `transitive` are not demanded)",
@@ -555,6 +593,7 @@ func TestC10(t *testing.T) {
 		"spelling_variants":       int(variants.Load()),
 		"spelling_not_demanded":   int(variantSkipped.Load()),
 		"comment_gap_cases":       int(gapCases.Load()),
+		"result_lifetime_pairs":   lifetimePairs,
 		"accepted":                int(cnt.accepted.Load()),
 		"beyond_nesting_limit":    int(cnt.overLimit.Load()),
 		"style_dimensions":        dims,
